@@ -149,6 +149,37 @@ def slots_c04_group(tier):
     return ([at(filter_(bin_("!=", a, lit(None))), 2), at(sort(("desc", "k")), 2)]
             + [at(g, 3) for g in gsteps] + [at(f, 4) for f in followers])
 
+def rename(x, tmap, cmap):
+    """rename tables / columns in a step or expression record (C09: user objects named like generated ones)"""
+    if isinstance(x, list):
+        return [rename(y, tmap, cmap) for y in x]
+    if isinstance(x, dict):
+        y = {kk: rename(vv, tmap, cmap) for kk, vv in x.items()}
+        if x.get("op") == "from":
+            y["t"] = tmap.get(x["t"], x["t"])
+        if x.get("t") == "col":
+            y["name"] = cmap.get(x["name"], x["name"]); y["q"] = tmap.get(x["q"], x["q"])
+        if x.get("t") == "eqcol":
+            y["name"] = cmap.get(x["name"], x["name"])
+        if x.get("op") == "join" and x.get("alias"):
+            y["alias"] = tmap.get(x["alias"], x["alias"])
+        if "n" in x and isinstance(x["n"], str) and "e" in x:
+            y["n"] = cmap.get(x["n"], x["n"])
+        return y
+    return x
+
+TMAP = {"t": "table_0", "u": "table_1"}
+CMAP = {"a": "_expr_0", "b": "_expr_1", "c": "_expr_2", "x": "_expr_3"}
+def alph_c09():
+    base = alph_c05() + [
+        select(item(bin_("+", a, lit(1))), item("a"), item("k")),                   # unnamed computed column next to a user column _expr_0
+        derive(item(bin_("*", b, lit(2)))), derive(item(agg("sum", b))),
+        filter_(bin_(">", agg("row_number", k), lit(1))),                             # windowed filter forces a sub-query
+        group(["a"], [derive(item(agg("rank", k)))]),
+        join("inner", [from_("u"), take(1, 2)], eqcol("k"), alias="u"),              # anonymous CTE next to user tables table_0 / table_1
+    ]
+    return rename(base, TMAP, CMAP)
+
 CONFIG = {
     "C01": dict(relevant={"rows", "ExecError", "Panic", "rejected-wellformed"}, alphabet=alph_c01,
                 gen=dict(), depth={"quick": 4, "thorough": 5}, nrand={"quick": 600, "thorough": 12000}),
@@ -161,6 +192,8 @@ CONFIG = {
                 slotmodels=[(slots_c04_top, 4), (slots_c04_group, 4)],
                 gen=dict(p_window=0.5, p_group=0.3, p_join=0.05, p_append=0.0), depth={"quick": 0, "thorough": 0},
                 nrand={"quick": 400, "thorough": 8000}),
+    "C09": dict(relevant={"rows", "frame", "order", "ExecError", "Panic", "rejected-wellformed"}, alphabet=alph_c09, first="table_0",
+                dbset="dbs_clash.json", gen=None, depth={"quick": 4, "thorough": 5}, nrand={"quick": 0, "thorough": 0}),
     "C10": dict(relevant={"accepted-illformed"}, alphabet=alph_c10,
                 gen=dict(), depth={"quick": 4, "thorough": 5}, nrand={"quick": 300, "thorough": 5000}),
 }
@@ -174,11 +207,12 @@ ASSUME = [
     "scalar shims FLOOR/CEIL/SIGN/POW/SQRT/EXP/LN/LOG10 registered in SQLite",
 ]
 
-def check(pid, tier):
+def check(pid, tier, extra=None):
     cfg = CONFIG[pid]
     rep = Report(pid, tier)
-    dbset = os.path.join(ROOT, "corpus", "dbs_quick.json" if tier == "quick" else "dbs_thorough.json")
-    st = l1.selftest(dbset)
+    dbset = os.path.join(ROOT, "corpus", cfg.get("dbset") or ("dbs_quick.json" if tier == "quick" else "dbs_thorough.json"))
+    st = l1.selftest(os.path.join(ROOT, "corpus", "dbs_quick.json"))
+    first = cfg.get("first", "t")
     states = transitions = traces = events = 0
     skipped = 0
     samples = []
@@ -188,7 +222,7 @@ def check(pid, tier):
     import inspect
     models = []
     if cfg.get("alphabet"):
-        models.append(("mc", model([from_("t")], cfg["alphabet"](), cfg["depth"][tier])))
+        models.append(("mc", model([from_(first)], cfg["alphabet"](), cfg["depth"][tier])))
     for n, (sl, sd) in enumerate(cfg.get("slotmodels", []) + ([cfg["slots"]] if "slots" in cfg else [])):
         models.append((f"slots{n}", model([from_("t")], sl(tier) if len(inspect.signature(sl).parameters) else sl(), sd)))
     nmc = 0
@@ -207,8 +241,10 @@ def check(pid, tier):
         nmc += len(progs); nshapes += len(m["steps"])
     m = {"steps": [None] * nshapes, "depth": max(mm["depth"] for _, mm in models)}
     # (2) seeded random programs beyond the bound
-    g = gen.G(seed(), **cfg["gen"])
-    rprogs = [g.program(i) for i in range(cfg["nrand"][tier])]
+    rprogs = []
+    if cfg["gen"] is not None:
+        g = gen.G(seed(), **cfg["gen"])
+        rprogs = [g.program(i) for i in range(cfg["nrand"][tier])]
     res2 = l1check.run(rep, f"{pid}-rnd", rprogs, dbset, cfg["relevant"])
     traces += res2["accepted"] + res2["rejected"]; skipped += res2["skipped"]; events += res2["events"]
     for kk, vv in res2["by_what"].items():
@@ -224,4 +260,6 @@ def check(pid, tier):
         "not_judged_unsup": skipped, "rejections_by_kind_all_properties": by_what,
         "relevant_kinds": sorted(cfg["relevant"]), "selftest": st,
     }
+    if extra is not None:
+        coverage.update(extra(rep, tier, coverage))
     return rep.finish("model_checking", coverage, ASSUME)
